@@ -10,13 +10,16 @@
 (*   with five radixes; every program text of at most LitLen characters over *)
 (*   LA that starts with a digit or "." is evaluated as a numeric literal;   *)
 (*   the hand-chosen strings of C06Str.tla are applied to all of these with  *)
-(*   a wide set of radix arguments.                                          *)
+(*   a wide set of radix arguments, and to String(parseInt()) and            *)
+(*   String(<literal>); the methods of 15.7.4.5-7 are called on this values  *)
+(*   that are not Numbers.                                                   *)
 (* Fam = "self": as "dom", and the digits of 9.8.1 are also computed with    *)
 (*   NumText!ShortestDigits (independent formulation) and must agree.        *)
-(* Fam = "dom": number -> text.  The cases (operation, double, argument) are *)
-(*   read from dom.ndjson, which the harness fills with seeded random and    *)
-(*   boundary doubles; only the domain comes from there, the expected text   *)
-(*   is computed here.                                                       *)
+(* Fam = "dom": the cases (operation, double or string, argument) are read   *)
+(*   from dom.ndjson, which the harness fills with seeded random and         *)
+(*   boundary doubles (number -> text) and random literals, ties and         *)
+(*   mutations (text -> number); only the domain comes from there, every     *)
+(*   expected outcome is computed here.                                      *)
 EXTENDS NumText, C06Str, Json, TLC, SequencesExt
 CONSTANTS OpenDev, Fam, MaxLen, LitLen
 VARIABLES blk, cs
